@@ -193,3 +193,35 @@ Proof. vm_compute. reflexivity. Qed.
 (* the default verdict when nothing is known about the peer *)
 Example ex_default_none : default_verdict jid_zero (str "f00d") = VFail.
 Proof. reflexivity. Qed.
+
+(* a callback stanza error: the error reply is written and the step fails with it *)
+Example ex_bind_server_error :
+  let en := [NElem ns_client (str "error") [mkattr [] (str "type") (str "cancel")]
+               [NElem (str "urn:ietf:params:xml:ns:xmpp-stanzas") (str "conflict") [] []]] in
+  let '(res, cb, reply) := bind_server parse_ex false (IElem (bind_request (str "r1") (str "x"))) (VStanzaErr en) in
+  res = BStanzaErr /\ cb = Some (str "x") /\
+  reply = flatten (NElem ns_client (str "iq") [mkattr [] (str "type") (str "error"); mkattr [] (str "id") (str "r1")] en).
+Proof. vm_compute. repeat split; reflexivity. Qed.
+
+(* three default binds with one feature value (premises of
+   C12_bind_receiver_fresh_per_negotiation): two clients of the same account and
+   the server, distinct draws, distinct resources *)
+Definition negs_ex : list (jid * item * bytes) :=
+  [(me, IElem (bind_request (str "r1") (str "x")), str "aaaa");
+   (me, IElem (bind_request (str "r2") []), str "bbbb");
+   (srv, IElem (bind_request (str "r3") (str "y")), str "cccc")].
+Example ex_negs_ok : Forall (neg_ok parse_ex false) negs_ex.
+Proof.
+  repeat constructor; try (cbn; discriminate);
+    eexists _, _, _; (split; [reflexivity | vm_compute; reflexivity]).
+Qed.
+Example ex_negs_nodup : NoDup (map snd negs_ex).
+Proof. repeat constructor; cbn; intuition discriminate. Qed.
+Example ex_negs_run :
+  map fst (bind_default_many parse_ex false negs_ex) = [BReady; BReady; BReady] /\
+  map j_res (map assigned negs_ex) = [str "aaaa"; str "bbbb"; str "cccc"].
+Proof. vm_compute. split; reflexivity. Qed.
+Example ex_nodupb : nodupb [str "a"; str "b"; str "a"] = false /\ nodupb [str "a"; str "b"] = true.
+Proof. vm_compute. split; reflexivity. Qed.
+Example ex_send_name : send_name true = (ns_ws, str "open") /\ send_name false = (ns_stream, str "stream").
+Proof. split; reflexivity. Qed.
